@@ -291,7 +291,13 @@ func stage2Child(c *vkit.Ctx) {
 	}
 	c.Event("s2_pool_probe_recycled_buffers", recycled)
 
-	judgeAgentRun(c, a, v, sent, capt, soloOf, recycled)
+	failed := map[int]bool{}
+	for ci, e := range clientErr {
+		if e != "" {
+			failed[ci] = true
+		}
+	}
+	judgeAgentRun(c, a, v, sent, capt, soloOf, recycled, failed)
 	c.Finish()
 }
 
@@ -342,7 +348,8 @@ func runClient(r *rand.Rand, addr string, lines []*sentLine) string {
 	}
 }
 
-func judgeAgentRun(c *vkit.Ctx, a agentRun, v variant, sent [][]*sentLine, capt *chunkCapture, soloOf func([]byte) (result, []event), recycled int) {
+func judgeAgentRun(c *vkit.Ctx, a agentRun, v variant, sent [][]*sentLine, capt *chunkCapture, soloOf func([]byte) (result, []event), recycled int,
+	undelivered map[int]bool) {
 	outIdx := map[string]int{}
 	ld, _ := loadConfig(v, vkitConfigPath(c, v))
 	for i, pair := range ld.conf.OutputBuffersPairs {
@@ -468,8 +475,8 @@ func judgeAgentRun(c *vkit.Ctx, a agentRun, v variant, sent [][]*sentLine, capt 
 		for si, sl := range l {
 			c.Event("s2_records_sent", 1)
 			c.Event("s2_records_"+sl.want.st.String(), 1)
-			if sl.want.st != stPassed {
-				continue
+			if sl.want.st != stPassed || undelivered[ci] {
+				continue // (a connection that could not deliver its stream was reported as inconclusive)
 			}
 			for k, kind := range v.outputs {
 				n := seen[seenKey{ci, si, k}]
